@@ -23,14 +23,14 @@ theorem allLabels_imp {p q : Nat → Prop} (h : ∀ x, p x → q x) : ∀ es, al
 
 mutual
   /-- a node as `buildNodes` makes it: either a terminator entry followed by at least one real
-  entry, or real entries only (and then not the single ambiguous entry `leaf 0xff []`) -/
+  entry, or real entries only -/
   def WFNode : Node → Prop
     | .mk _ es => WFRow es
   def WFRow : Entries → Prop
     | .nil => False
     | .leaf l suf _ r =>
       (l = 255 ∧ suf = [] ∧ r.isNil = false ∧ WFEntries r) ∨
-      (¬(l = 255 ∧ suf = []) ∧ l ≤ 255 ∧ allLabels (l < ·) r ∧ WFEntries r)
+      (l ≤ 255 ∧ allLabels (l < ·) r ∧ WFEntries r)
     | .child l n r => l ≤ 255 ∧ allLabels (l < ·) r ∧ WFNode n ∧ 2 ≤ n.entries.length ∧ WFEntries r
   /-- real entries: labels are bytes, strictly increasing; children are well formed and have at
   least two labels -/
@@ -72,6 +72,15 @@ theorem iterEntries_leaf_real {l : Nat} {suf : List Nat} {v : Nat} {r : Entries}
   · have := WFEntries.ff_last h.2.2 h.2.1 hl
     simp [this]
   · simp [labelTerminator, hl]
+
+/-- the one ambiguous row: a single label 0xff without child and without suffix (the trie of the
+key set {"\xff"}), which `trie.Get` takes for a terminator -/
+def NoSingleFF (es : Entries) : Prop := ∀ v, es ≠ .leaf 255 [] v .nil
+
+theorem noSingleFF_of_length {es : Entries} (h : 2 ≤ es.length) : NoSingleFF es := by
+  intro v e
+  rw [e] at h
+  simp [Entries.length] at h
 
 /-! ### every key below a node starts with the path to it -/
 
